@@ -324,3 +324,8 @@ SPECS["C12"]["runner_vo"] = ["Run/ServiceRun.v", "Run/HandlerRun.v"]
 # still gets its sender banned) and C01 (the record the service supplies for a who-are-you query is that node's own)
 SPECS["C11"]["harness"].append({"component": "svcq", "args": [], "quick": 200, "thorough": 3000, "correspondence": False})
 SPECS["C01"]["harness"].append({"component": "svcq", "args": [], "quick": 200, "thorough": 3000, "correspondence": False})
+
+# the filter is only consulted for sources without an exemption; that exemptions do not outlive what is awaited
+# is C13's subject, but a leftover exemption is a bypass of C18's quotas and bans: the handler histories of C13 run
+# again as a monitor-only run of C18
+SPECS["C18"]["harness"].append({"component": "hnd", "args": ["--focus", "c13", "--fixes", "all"], "quick": 96, "thorough": 1000, "correspondence": False})
